@@ -182,7 +182,7 @@ type typeStruct struct {
 var families = []string{"str", "strs", "bytes", "hex", "bool", "bools", "int", "int8", "int16", "int32", "int64", "ints", "ints8", "ints16", "ints32", "ints64",
 	"uint", "uint8", "uint16", "uint32", "uint64", "uints", "uints8", "uints16", "uints32", "uints64", "float32", "float64", "floats32", "floats64",
 	"time", "times", "dur", "durs", "timediff", "timestamp", "err", "anerr", "rawjson", "type", "dict", "array", "object", "func",
-	"strslit", "intslit", "boolslit", "floatslit", "durslit", "bytesconv", "hexconv", "strconcat"}
+	"strslit", "intslit", "boolslit", "floatslit", "durslit", "bytesconv", "hexconv", "strconcat", "arrconv", "arrscratch", "scratch"}
 
 func pick(n, v int) int { return ((v % n) + n) % n }
 
@@ -223,6 +223,29 @@ func compile(steps []Step, depth int) []func(*zerolog.Event) *zerolog.Event {
 				x = x[:24]
 			}
 			f = func(e *zerolog.Event) *zerolog.Event { return e.Hex(k, []byte(x)) }
+		case "arrconv":
+			// the same call-site temporaries as elements of an Array
+			x := strVals[pick(len(strVals), v)]
+			if len(x) > 12 {
+				x = x[:12]
+			}
+			f = func(e *zerolog.Event) *zerolog.Event {
+				return e.Array(k, zerolog.Arr().Bytes([]byte(x)).Hex([]byte(x)).Str("p-"+x))
+			}
+		case "arrscratch":
+			b0 := byte(v)
+			f = func(e *zerolog.Event) *zerolog.Event {
+				var id [16]byte // a request id, a digest: a scratch array of the caller, sliced for the call
+				id[0], id[15] = b0, 0xff
+				return e.Array(k, zerolog.Arr().Bytes(id[:]).Hex(id[:8]))
+			}
+		case "scratch":
+			b0 := byte(v)
+			f = func(e *zerolog.Event) *zerolog.Event {
+				var id [16]byte
+				id[0], id[15] = b0, 0xff
+				return e.Bytes(k, id[:]).Hex(k, id[:8])
+			}
 		case "strconcat":
 			x := strVals[pick(len(strVals), v)]
 			if len(x) > 12 {
